@@ -6,6 +6,7 @@ of every name in force and a category probe.  The oracle is the reference
 expander (save stack); the generator only has to keep the program valid."""
 from .conds import alpha
 
+ALIAS_NAMES = ['zqla', 'zqlb', 'zqlc']
 SCOPES = ['{', '{', 'begingroup', 'center', 'quote', 'itemize', 'math', 'mathparen', 'tabular', 'textbf', 'mbox', 'emph', 'unknownenv']
 
 
@@ -20,6 +21,7 @@ class ScopeGen(object):
         self.nscopes = 0
         self.kinds = set()
         self.atletter = [False]    # per scope: is @ a letter?
+        self.inarg = 0             # depth of enclosing command arguments (\textbf{..}, \mbox{..}, \emph{..})
 
     def mark(self):
         self.nmark += 1
@@ -59,8 +61,22 @@ class ScopeGen(object):
                 return '\\global\\def\\%s{%s}' % (name, self.mark())
             self.features.add('gdef')
             return '\\gdef\\%s{%s}' % (name, self.mark())
+        if k < 0.57:
+            # an alias of a character token, local or global.  Normal form (known finding `character-alias-substituted-when-tokenized`):
+            # the name is not otherwise defined and not aliased at this point, and the \let does not stand inside a command argument
+            free = [n for n in ALIAS_NAMES if n not in self.defined()]
+            if free and not self.inarg:
+                an = r.choice(free)
+                ch = r.choice('uvw')
+                if r.random() < 0.5:
+                    self.vis[0][an] = True
+                    self.features.add('global-let-character')
+                    return '\\global\\let\\%s=%s' % (an, ch)
+                self.vis[-1][an] = True
+                self.features.add('let-character')
+                return '\\let\\%s=%s' % (an, ch)
         if k < 0.6 and self.defined():
-            src = r.choice(self.defined())
+            src = r.choice([x for x in self.defined() if x not in ALIAS_NAMES] or [name])
             if src != name:
                 for s in self.vis:
                     s.pop(name, None)
@@ -68,7 +84,7 @@ class ScopeGen(object):
                 self.features.add('global-let')
                 return '\\global\\let\\%s=\\%s ' % (name, src)
         if k < 0.7 and self.defined():
-            src = r.choice(self.defined())
+            src = r.choice([x for x in self.defined() if x not in ALIAS_NAMES] or [name])
             if src != name:
                 self.vis[-1][name] = True
                 self.features.add('let')
@@ -149,7 +165,9 @@ class ScopeGen(object):
             after = self.probe()
             return s + after
         else:
+            self.inarg += 1
             s = '\\%s{' % kind + self.block(depth) + '}'
+            self.inarg -= 1
         self.vis.pop()
         self.atletter.pop()
         return s + self.probe()
